@@ -354,7 +354,8 @@ func opSend(g *G) bool {
 			g.bump("multi:send-different-batches")
 		}
 	}
-	g.Do(g.App.MsgSendMulti(sender, rcpt, credits...), note)
+	sm, note := g.respell(g.App.MsgSendMulti(sender, rcpt, credits...), note)
+	g.Do(sm, note)
 	return true
 }
 
@@ -534,7 +535,7 @@ func opAdminNoise(g *G) bool {
 	}
 	switch g.R.Intn(6) {
 	case 0:
-		g.Do(g.App.MsgUpdateClassAdmin(admin, c.ID, g.otherUser(admin)), "class admin transfer")
+		g.Do(g.respell(g.App.MsgUpdateClassAdmin(admin, c.ID, g.otherUser(admin)), "class admin transfer"))
 	case 1:
 		add, rem := []int{g.user()}, []int(nil)
 		if g.R.Bool() {
@@ -560,7 +561,7 @@ func opAdminNoise(g *G) bool {
 		if wrong || a < 0 || a >= NumUsers {
 			a = g.user()
 		}
-		g.Do(g.App.MsgUpdateProjectAdmin(a, p.ID, g.otherUser(a)), "project admin transfer")
+		g.Do(g.respell(g.App.MsgUpdateProjectAdmin(a, p.ID, g.otherUser(a)), "project admin transfer"))
 	case 4:
 		if len(ps) == 0 {
 			return false
@@ -740,6 +741,8 @@ func opGov(g *G) bool {
 	if g.bad() && g.R.Chance(1, 2) {
 		u := g.user()
 		m, note = g.asUser(m, u), note+fmt.Sprintf(" — sent by user %d instead of the authority", u)
+	} else {
+		m, note = g.respell(m, note)
 	}
 	g.Do(m, note)
 	return true
